@@ -75,12 +75,22 @@ func vh_C04_sign_verify() {
 	vxAssert(i.AddTo(m) == nil, "signing succeeds when no FINGERPRINT is present")
 	vxAssert(i.Check(m) == nil, "a message signed by the library verifies under the same key")
 	vxReach("verified")
-	switch vxChoose(3) {
+	switch vxChoose(4) {
 	case 1:
 		vxAssert(Fingerprint.AddTo(m) == nil, "fingerprint can be added after integrity")
 		vxAssert(i.Check(m) == nil, "still verifies after FINGERPRINT was appended")
 		vxAssert(errors.Is(i.AddTo(m), ErrFingerprintBeforeIntegrity), "signing is refused once FINGERPRINT is present")
+		if vxChoose(2) == 1 {
+			m.Add(AttrType(vxU16()&0x7FF0), vxBytes(2, 2))
+			vxAssert(errors.Is(i.AddTo(m), ErrFingerprintBeforeIntegrity), "signing is refused when FINGERPRINT is present but not last")
+		}
 		vxReach("then-fingerprint")
+	case 3: // two further attributes of every pair of length residues
+		n1, n2 := vxChoose(5), vxChoose(5)
+		m.Add(AttrType(vxU16()&0x7FF0), vxBytes(n1, n1))
+		m.Add(AttrType(vxU16()&0x7FF0), vxBytes(n2, n2))
+		vxAssert(i.Check(m) == nil, "still verifies after two further attributes of any lengths were appended")
+		vxReach("then-two-attributes")
 	case 2:
 		n := vxChoose(4)
 		m.Add(AttrType(vxU16()&0x7FF0), vxBytes(n, n))
@@ -212,7 +222,7 @@ func vh_C04_tamper() {
 
 // credentials
 func vh_C04_keys() {
-	u, r, p := vxString(vxLen(6), 6), vxString(vxLen(6), 6), vxString(vxLen(6), 6)
+	u, r, p := vxString(vxLen(6), 6), vxString(vxLen(6), 6), vxString(vxLen(6), 6) // any bytes, '%' included
 	lt := NewLongTermIntegrity(u, r, p)
 	joined := []byte(u + ":" + r + ":" + p)
 	want := vxMD5(joined)
